@@ -96,6 +96,25 @@ CHECKS = {
              "WalkError iff different trees. Tie: every forest <= 5 nodes x every ordered node pair.",
         design="6/C15", note="nodes are (tree index, position).",
         technique="Coq proof + exhaustive small-scope correspondence"),
+    "C12": dict(
+        text="Theorems: node statements = C06 pre-order; edge statements = all parent-child pairs with both ends admitted "
+             "and filtered (pointwise edges_ann) under the exact guard 'no declared parent has a child with stop and "
+             "filter_' (holds for every export without stop, every maxlevel incl. 0 after the fix: commit); refutation "
+             "witness for the stop case (known finding KF-C12-1, pinned by tests/refdata); escaping round-trip / "
+             "injective / well-formed on the character class extracted from /repo; unique-id table defined/stable/"
+             "injective; verbatim placement. Tie: exact line text of DotExporter/UniqueDotExporter/RenderTreeGraph on "
+             "every shape <= 4 nodes x stop subsets x filter subsets x maxlevel + random rich cases (special characters, "
+             "custom functions, options, indent, file output), each exporter iterated twice.",
+        design="6/C12, 7 (D7, D8)", note="hex() rendering injectivity not proved; str()/file I/O are CPython's.",
+        technique="Coq proof (guarded edge theorem + refutation) + exact-text correspondence + known-finding class"),
+    "C13": dict(
+        text="Theorems: node lines = C06 pre-order; edge lines = exactly the parent-child pairs with both ends admitted "
+             "and filtered, for every filter_/stop/maxlevel (maxlevel=0 after the fix: commit 04bedb8); default label "
+             "escaping round-trip/well-formed on the extracted class; id table stable/injective; verbatim placement. "
+             "Tie: exact line text on every shape <= 4 nodes x stop x filter x maxlevel + random rich cases; to_file "
+             "fencing checked by the harness.",
+        design="6/C13", note="str()/file I/O are CPython's.",
+        technique="Coq proof + exact-text correspondence"),
 }
 
 NOT_YET = "check not built yet in this round (work in progress; see DESIGN.md section 6 for the plan)"
